@@ -1,5 +1,6 @@
 import Drv.Common
 import DdsModel.Order
+import DdsModel.Imports
 open Lean
 namespace Drv
 open Dds.Scope
@@ -55,5 +56,56 @@ def opOrder (j : Json) : R Json := do
   let e ← decCE (← fld j "e")
   pure (Json.mkObj [("dds", nats (Dds.Order.ddsOrder e)), ("python", nats (Dds.Order.pyOrder e)), ("old", nats (Dds.Order.oldOrder e)),
     ("simple", .bool (Dds.Order.funcSimple e))])
+
+namespace Imp
+open Dds.Imports
+
+partial def decExpr (j : Json) : R Dds.Imports.Expr := do
+  let t ← fldStr j "t"
+  match t with
+  | "name" => pure (Dds.Imports.Expr.name (← fldStr j "x"))
+  | "const" => pure Dds.Imports.Expr.const
+  | "attr" => pure (.attr (← decExpr (← fld j "e")) (← fldStr j "a"))
+  | "app" => pure (.app (← decExpr (← fld j "f")) (← decExpr (← fld j "a")))
+  | "lam" => pure (.lam (← asStrList (← fld j "params")) (← decExpr (← fld j "body")))
+  | "comp" => pure (.comp (← asStrList (← fld j "targets")) (← decExpr (← fld j "iter")) (← decExpr (← fld j "inner")))
+  | _ => .error s!"bad expr tag {t}"
+
+partial def decStmt (j : Json) : R Dds.Imports.Stmt := do
+  let t ← fldStr j "t"
+  match t with
+  | "expr" => pure (.expr (← decExpr (← fld j "e")))
+  | "assign" => pure (.assign (← asStrList (← fld j "targets")) (← decExpr (← fld j "e")))
+  | "imp" => pure (.imp (← fldStr j "x") (← asStrList (← fld j "p")))
+  | "global" => pure (.global (← asStrList (← fld j "xs")))
+  | "defn" => pure (.defn (← fldStr j "name") (← asStrList (← fld j "params")) (← decExpr (← fld j "header")) (← decStmt (← fld j "body")))
+  | "seq" => pure (.seq (← decStmt (← fld j "a")) (← decStmt (← fld j "b")))
+  | "skip" => pure .skip
+  | _ => .error s!"bad stmt tag {t}"
+
+def refStr : Dds.Imports.Ref → String
+  | .glob x => "g:" ++ x
+  | .path p => "p:" ++ "/".intercalate p
+
+def refs (l : List Dds.Imports.Ref) : Json := .arr (l.map (fun r => Json.str (refStr r))).toArray
+
+end Imp
+
+/-- {"op":"imports","params":[…],"body":stmt,"accepted":[root packages],"roots":[first components of the imported paths]} -/
+def opImports (j : Json) : R Json := do
+  let ps ← asStrList (← fld j "params")
+  let b ← Imp.decStmt (← fld j "body")
+  let accepted ← asStrList (← fld j "accepted")
+  let roots ← asStrList (← fld j "roots")
+  let acc : Dds.Imports.Path → Bool := fun p => match p with | [] => false | h :: _ => accepted.contains h
+  let isRoot : String → Bool := fun x => roots.contains x
+  let hyp := Dds.Imports.stmtOK acc isRoot b && Dds.Imports.varsOK isRoot (ps ++ Dds.Imports.boundS b)
+    && Dds.Imports.impsOK acc isRoot (Dds.Imports.impsS b)
+  pure (Json.mkObj [
+    ("analysis", match Dds.Imports.analyse acc ps b with | none => Json.null | some l => Imp.refs l),
+    ("python", Imp.refs (Dds.Imports.pyRefs ps b)),
+    ("hypotheses", .bool hyp),
+    ("unresolved", Imp.refs (Dds.Imports.unresolvedRefs ps b)),
+    ("text_order", Imp.refs (Dds.Imports.textRefs acc ps b))])
 
 end Drv
